@@ -234,6 +234,40 @@ theorem recordvar_only_records (d : Defs) (fuel : Nat) (ops : List Op)
   rw [hk] at this
   exact this
 
+open RotoV.Unify in
+/-- **No value fits an expected `!`.** `unify(expected, found)` with expected
+    `!` fails for every found type that is a value type (a named type, `()`, a
+    record, a function) — only a found `!` (a diverging expression) or an
+    unbound variable is accepted. (The arm of `unify_inner` and the shortcut of
+    `unify` are read off the source on every run.) -/
+theorem never_expected_rejects_values (d : Defs) (fuel : Nat) (s : Store) (found : MTy)
+    (hv : (∃ n args, found = .name n args) ∨ found = .unit ∨ (∃ fs, found = .record fs) ∨
+      (∃ ps r, found = .func ps r)) :
+    unifyTop d (fuel + 1) s .never found = .fail s := by
+  have h1 : C07Facts.unifyFoundNeverFitsAll = true := by decide
+  have h2 := fact_no_never_arm
+  rcases hv with ⟨n, args, rfl⟩ | rfl | ⟨fs, rfl⟩ | ⟨ps, r, rfl⟩ <;>
+    simp [unifyTop, h1, resolve, MTy.varIndex, unify, plan, planArms, planArmsWith, h2, planCore,
+      BEq.beq, MTy.beq]
+
+open RotoV.Unify in
+/-- … while a diverging expression fits any expected type -/
+theorem never_found_fits_all (d : Defs) (fuel : Nat) (s : Store) (expected : MTy)
+    (he : expected.varIndex = none) :
+    unifyTop d fuel s expected .never = .ok expected s := by
+  have h1 : C07Facts.unifyFoundNeverFitsAll = true := by decide
+  have hr : resolve s expected = some expected := by unfold resolve; rw [he]
+  have hn : resolve s MTy.never = some MTy.never := rfl
+  simp [unifyTop, h1, hr, hn]
+
+/-- (refutation on the unchanged tree, repaired by a `fix:` commit) with the arm
+    `(Never, x) | (x, Never) => x` inside `unify_inner` an `i32` value unified
+    with an expected `!`: `fn f() -> ! { 1 }` passed the type checker and
+    panicked in lowering ("should be a type error"). -/
+theorem never_arm_accepted_values (d : RotoV.Unify.Defs) (s : RotoV.Unify.Store) :
+    RotoV.Unify.planArmsWith true d s 1 .never (.name 6 []) = .same (.name 6 []) := by
+  rfl
+
 /-- non-vacuity: `let y = 1; -y;` then `y` against `i32` unifies, against `u32` does not -/
 example :
     let d : RotoV.Unify.Defs := fun n => if n < 4 then .int false else if n < 8 then .int true else .other
